@@ -429,4 +429,44 @@ example :
     start { ps := [PolicyDesc.no, .max 0].map PolicyDesc.denote } ireq sc = ([ireq], .useLast 302) ∧
     start { ps := [PolicyDesc.max 0, .no].map PolicyDesc.denote } ireq sc = ([ireq], .refused 302) := by decide
 
+/-! ## 6. Cookies -/
+
+/-- **client_cookie_dropped_cross_origin**: with a jar, once a cross-domain hop happened and no
+AlwaysCopy policy lists Cookie, the Cookie entries of a redirected request are EXACTLY what `send`
+writes from the jar's cookies for that URL host onto an empty header map, the jar having been fed only
+by the Set-Cookie lines of the replies received so far in this call: nothing of the Cookie header
+(or `SetCookies` cookies) the caller supplied survives, on that hop or any later one. -/
+theorem client_cookie_dropped_cross_origin (ds : List PolicyDesc) (cfg : Config)
+    (hps : cfg.ps = ds.map PolicyDesc.denote) (hjar : cfg.jar = true)
+    (hcl : copyListed ds hCookie = false) (ireq : Loop.Req) (script : List Reply)
+    (j : Nat) (hj : j + 1 < (start cfg ireq script).1.length)
+    (hx : crossed ireq.url.host ((((start cfg ireq script).1.drop 1).take (j + 1)).map (·.url.host)) = true) :
+    entriesFor ((start cfg ireq script).1[j + 1]).hdr hCookie =
+      entriesFor (((jarAfter (exchanges ((start cfg ireq script).1.take (j + 1)) (script.take (j + 1)))).cookiesFor
+        ((start cfg ireq script).1[j + 1]).url.host).foldl addCookie []) hCookie := by
+  obtain ⟨later, hs, hc⟩ := start_sent cfg ireq script
+  have hj' : j < later.length := by rw [hs] at hj; simpa using hj
+  have := chain_cookie ds cfg hps hjar hcl hc [] rfl j hj' (by simpa [hs, firstHost] using hx)
+  simp only [hs, List.getElem_cons_succ, List.take_succ_cons, List.nil_append] at this ⊢
+  rw [this, exchanges_head_congr (sendMutate cfg [] ireq) ireq _ _ (by simp)]
+
+/-- **jar_cookies_host_only**: a cookie the jar returns for a host was set by a reply to a request
+addressed to the same canonical host (host-only cookies: no Domain attribute in the model). With
+`credentials_never_reach_refused_host`: a jar cookie reaches only hosts every policy allows, and only
+the host that set it. -/
+theorem jar_cookies_host_only (pairs : List (Bytes × List (Bytes × Bytes))) (host : Bytes) (c : Bytes × Bytes)
+    (hc : c ∈ (jarAfter pairs).cookiesFor host) :
+    ∃ p ∈ pairs, jarCanonicalHost p.1 = jarCanonicalHost host ∧ c ∈ p.2 :=
+  cookiesFor_prov pairs host c hc
+
+/-- a.com (Cookie: sid=1 from the caller) → b.com (sets t=2) → b.com/2: b.com gets no `sid`, and on
+the second visit its own `t=2` from the jar. -/
+example :
+    let cfg : Config := { ps := [] }
+    let ck : Headers := [(hCookie, [[115,105,100,61,49]])]
+    let ireq : Loop.Req := { url := { host := aCom }, method := mGET, hdr := ck }
+    ((start cfg ireq [{ status := 302, loc := .abs .http none bCom p1 },
+                      { status := 302, loc := .path [47, 50], setCookie := [([116], [50])] }]).1.map
+        fun r => r.hdr.values hCookie) = [[[115,105,100,61,49]], [], [[116,61,50]]] := by decide
+
 end Req.Props.C11Loop
